@@ -291,6 +291,7 @@ fn sweep(t: &mut Tape, full: bool) -> Scenario {
         mutation: None,
         sniff: false,
         epoch_liveness: false,
+        synth: None,
     }
 }
 
@@ -580,6 +581,7 @@ fn sweep_scenario(t: &mut Tape, wide: bool, tier: &str) -> Scenario {
         mutation: Some(Mutation { field, value, trunc }),
         sniff: true,
         epoch_liveness: false,
+        synth: None,
     }
 }
 
@@ -594,6 +596,256 @@ fn g_sweep16_quick(t: &mut Tape) -> Scenario {
 }
 fn g_sweep16_thorough(t: &mut Tape) -> Scenario {
     sweep_scenario(t, true, "thorough")
+}
+
+// ---- synthetic round sequences (C05 / C10 / C15) ------------------------------------
+
+/// Rounds drawn from the tape and applied through the tracer's real round handler: mixes
+/// of complete / awaited / failed / skipped probes the simulated networks rarely produce,
+/// round-trip times from 0 to 10 s, first-ttl 1..254, up to thousands of rounds, sample
+/// limits from 0, flow limits from 1.
+fn g_synth(t: &mut Tape) -> Scenario {
+    use crate::scenario::SynthCfg;
+    let mut sc = fault_enum_base(t.draw(fe_cfgs()));
+    sc.stable = false;
+    let tr = &mut sc.tracer;
+    tr.first_ttl = match t.weighted(&[5, 3, 1, 1]) {
+        0 => 1,
+        1 => 1 + t.draw(20) as u8,
+        2 => 1 + t.draw(254) as u8,
+        _ => 254,
+    };
+    tr.max_ttl = match t.weighted(&[3, 3, 2]) {
+        0 => 254,
+        1 => tr.first_ttl.saturating_add(t.draw(40) as u8).min(254),
+        _ => tr.first_ttl,
+    };
+    tr.max_samples = match t.weighted(&[2, 2, 4, 2]) {
+        0 => 0,
+        1 => 1,
+        2 => 2 + t.draw(10),
+        _ => 256,
+    } as usize;
+    tr.max_flows = match t.weighted(&[2, 4, 2]) {
+        0 => 1,
+        1 => 2 + t.draw(8),
+        _ => 64,
+    } as usize;
+    tr.initial_seq = t.draw(64512) as u16;
+    let rounds = match t.weighted(&[12, 6, 1]) {
+        0 => 1 + t.draw(12),
+        1 => 10 + t.draw(150),
+        _ => 500 + t.draw(2500),
+    };
+    let mix = t.pick(5);
+    let (w_complete, w_awaited, w_failed) = match mix {
+        0 => (8, 2, 0),
+        1 => (5, 4, 1),
+        2 => (1, 8, 1),
+        3 => (3, 3, 3),
+        _ => (1, 0, 0),
+    };
+    sc.synth = Some(SynthCfg {
+        rounds,
+        // long histories stay narrow so that a run costs at most ~30k probe updates
+        max_len: match t.weighted(&[4, 4, 1]) {
+            0 => 1 + t.draw(6) as u8,
+            1 => 4 + t.draw(if rounds > 400 { 8 } else { 28 }) as u8,
+            _ => {
+                if rounds > 100 {
+                    12
+                } else {
+                    254
+                }
+            }
+        },
+        rtt_regime: t.pick(4) as u8,
+        addr_pool: 1 + t.draw(3) as u8,
+        w_complete,
+        w_awaited,
+        w_failed,
+        skipped_pm: if t.chance(300) { 20 + t.draw(200) } else { 0 },
+        shrink_pm: t.draw(300),
+        dense: false,
+    });
+    sc
+}
+
+/// Synthetic rounds for the oracles that follow the state round by round (flows): a
+/// snapshot after every round, histories of at most 200 rounds.
+fn g_synth_dense(t: &mut Tape) -> Scenario {
+    let mut sc = g_synth(t);
+    if let Some(cfg) = &mut sc.synth {
+        cfg.dense = true;
+        cfg.rounds = cfg.rounds.min(40 + cfg.rounds % 160);
+    }
+    sc
+}
+
+// ---- C09: enumerated socket faults -------------------------------------------------
+
+const FE_SITES: [crate::scenario::Site; 18] = {
+    use crate::scenario::Site::*;
+    [NewSocket, Bind, SetTtl, SetTos, SetHops, SetHdrIncl, SetReusePort, Connect, SendTo, IsReadable, IsWritable, Read, RecvFrom, TakeError, PeerAddr, Shutdown, IfaceLookup, Discover]
+};
+const FE_ERRNOS: [i32; 16] = [
+    libc::EINTR,
+    libc::EAGAIN,
+    libc::EINPROGRESS,
+    libc::EADDRINUSE,
+    libc::EADDRNOTAVAIL,
+    libc::ENETUNREACH,
+    libc::EHOSTUNREACH,
+    libc::EINVAL,
+    libc::ENOBUFS,
+    libc::EPERM,
+    libc::EACCES,
+    libc::EMSGSIZE,
+    libc::ECONNREFUSED,
+    libc::ETIMEDOUT,
+    libc::EBADF,
+    libc::ENETDOWN,
+];
+/// Errnos of the second fault of a pair: one of every class the tracer distinguishes.
+const FE_ERRNOS2: [i32; 8] = [
+    libc::EINTR,
+    libc::EAGAIN,
+    libc::EINPROGRESS,
+    libc::EADDRINUSE,
+    libc::EADDRNOTAVAIL,
+    libc::ENETUNREACH,
+    libc::EHOSTUNREACH,
+    libc::EINVAL,
+];
+const FE_NTH_QUICK: u32 = 8;
+const FE_NTH_THOROUGH: u32 = 40;
+const FE_NTH_PAIR: u32 = 6;
+
+/// The fault-free base run of the fault enumeration: configuration `cfg` (executable cell
+/// x address family) on a three-router path whose target answers, three rounds.
+fn fault_enum_base(cfg: u32) -> Scenario {
+    use crate::gen::executable_cells;
+    use crate::scenario::*;
+    use crate::wire::ErrorLayout;
+    let cells = executable_cells();
+    let cell = cells[(cfg as usize / 2) % cells.len()];
+    let v6 = cfg % 2 == 1;
+    let ports = match cell.ports {
+        0 => Ports::None,
+        1 => Ports::FixedSrc(5000),
+        2 => Ports::FixedDest(if cell.proto == Proto::Tcp { 80 } else { 33434 }),
+        _ => Ports::FixedBoth(5000, 33434),
+    };
+    let router = |h: u32| RouterCfg {
+        addr: router_addr(v6, h, 0, 0),
+        silent: h == 2,
+        rate_limit: 1,
+        duplicate: false,
+        extra_delay_ns: 0,
+        quote: Quote::Min8,
+        layout: ErrorLayout::Plain,
+        quoted_ttl: 1,
+        tos_rewrite: None,
+        nat: None,
+        unreachable_code: None,
+    };
+    let ms = 1_000_000u64;
+    Scenario {
+        tracer: TracerCfg {
+            v6,
+            proto: cell.proto,
+            strat: cell.strat,
+            ports,
+            unprivileged: cell.unprivileged,
+            ext_enabled: false,
+            first_ttl: 1,
+            max_ttl: 6,
+            max_inflight: 24,
+            initial_seq: 33434,
+            packet_size: 84,
+            pattern: 0,
+            tos: 0,
+            trace_id: 0x4321,
+            rounds: 3,
+            min_round_ns: 2 * ms,
+            max_round_ns: 6 * ms,
+            grace_ns: ms / 2,
+            read_timeout_ns: ms / 2,
+            tcp_connect_timeout_ns: 4 * ms,
+            max_samples: 4,
+            max_flows: 4,
+            explicit_source: false,
+            interface: None,
+            source: default_source(v6),
+            target: default_target(v6),
+        },
+        net: NetCfg {
+            paths: vec![PathCfg { routers: vec![router(1), router(2), router(3)] }],
+            route_change: None,
+            target: TargetCfg { behaviour: TargetBehaviour::Normal, reply_from: None, tcp_open: cfg % 4 < 2, quote: Quote::Min8, layout: ErrorLayout::Plain },
+            probe_loss_pm: 0,
+            resp_loss_pm: 0,
+            dup_pm: 0,
+            extra_delay_pm: 0,
+            late_pm: 0,
+            hop_delay_ns: 50_000,
+            jitter_ns: 0,
+            ecmp_salt: 7,
+        },
+        inject: InjectCfg::default(),
+        faults: FaultCfg { sock_pm: 0, sock_benign_pm: 0, scripted: Vec::new(), stall_pm: 0, stall_max_ns: 0, addr_in_use_pm: 0, tick_base_ns: 100, tick_jitter_ns: 0 },
+        stable: true,
+        light: true,
+        mutation: None,
+        sniff: false,
+        epoch_liveness: false,
+        synth: None,
+    }
+}
+
+fn fe_cfgs() -> u32 {
+    crate::gen::executable_cells().len() as u32 * 2
+}
+
+/// One fault: every configuration x site x phase x occurrence x errno.
+fn fault_enum_single(t: &mut Tape) -> Scenario {
+    use crate::scenario::ScriptedFault;
+    let cfg = t.draw(fe_cfgs());
+    let site = FE_SITES[t.draw(FE_SITES.len() as u32) as usize];
+    let run_phase = t.draw(2) == 1;
+    let nth = t.draw(FE_NTH_THOROUGH);
+    let errno = FE_ERRNOS[t.draw(FE_ERRNOS.len() as u32) as usize];
+    let mut sc = fault_enum_base(cfg);
+    sc.faults.scripted.push(ScriptedFault { site, nth, errno, run_phase });
+    sc
+}
+fn fault_enum_single_dims(tier: &str) -> Vec<u32> {
+    let nth = if tier == "thorough" { FE_NTH_THOROUGH } else { FE_NTH_QUICK };
+    vec![fe_cfgs(), FE_SITES.len() as u32, 2, nth, FE_ERRNOS.len() as u32]
+}
+
+/// Two faults in the run phase (the second only matters when the first was survived).
+fn fault_enum_pair(t: &mut Tape) -> Scenario {
+    use crate::scenario::ScriptedFault;
+    let cfg = t.draw(fe_cfgs());
+    let mut sc = fault_enum_base(cfg);
+    for _ in 0..2 {
+        let site = FE_SITES[t.draw(FE_SITES.len() as u32) as usize];
+        let nth = t.draw(FE_NTH_PAIR);
+        let errno = FE_ERRNOS2[t.draw(FE_ERRNOS2.len() as u32) as usize];
+        sc.faults.scripted.push(ScriptedFault { site, nth, errno, run_phase: true });
+    }
+    sc
+}
+fn fault_enum_pair_dims(tier: &str) -> Vec<u32> {
+    if tier != "thorough" {
+        return Vec::new();
+    }
+    let one = [FE_SITES.len() as u32, FE_NTH_PAIR, FE_ERRNOS2.len() as u32];
+    let mut v = vec![fe_cfgs()];
+    v.extend_from_slice(&one);
+    v.extend_from_slice(&one);
+    v
 }
 
 /// Every combination the `Builder` API admits, valid or not.
@@ -726,6 +978,7 @@ pub fn registry() -> Vec<PropertyCheck> {
                 Family { name: "stats-long", gen: g_stats, oracle: oracle::c05, opts: opts_full(), quick_runs: 8_000, thorough_runs: 300_000, must_reach: &[], enum_dims: None },
                 Family { name: "swarm", gen: g_base, oracle: oracle::c05, opts: opts_full(), quick_runs: 60_000, thorough_runs: 2_000_000, must_reach: &[], enum_dims: None },
                 Family { name: "socket-faults", gen: g_sockfaults, oracle: oracle::c05, opts: opts_full(), quick_runs: 40_000, thorough_runs: 1_500_000, must_reach: &[], enum_dims: None },
+                Family { name: "synthetic-rounds", gen: g_synth, oracle: oracle::c05, opts: opts_full(), quick_runs: 20_000, thorough_runs: 600_000, must_reach: &["reach.synthetic_round"], enum_dims: None },
             ],
             assumptions: vec![ASSUME_SIM, ASSUME_CLOCK, "floating point figures are compared with relative tolerance 1e-9 (stddev: 1e-6 against the two-pass formula)"],
         },
@@ -746,6 +999,7 @@ pub fn registry() -> Vec<PropertyCheck> {
             families: vec![
                 Family { name: "flows", gen: g_flows, oracle: oracle::c15, opts: opts_full(), quick_runs: 60_000, thorough_runs: 2_500_000, must_reach: &["reach.ecmp_path_1"], enum_dims: None },
                 Family { name: "swarm", gen: g_base, oracle: oracle::c15, opts: opts_full(), quick_runs: 40_000, thorough_runs: 1_500_000, must_reach: &[], enum_dims: None },
+                Family { name: "synthetic-rounds", gen: g_synth_dense, oracle: oracle::c15, opts: opts_full(), quick_runs: 20_000, thorough_runs: 600_000, must_reach: &["reach.synthetic_round"], enum_dims: None },
             ],
             assumptions: vec![ASSUME_SIM, "position = ttl offset from first-ttl; rounds containing failed or skipped probes are held to the clauses that do not depend on positions"],
         },
@@ -792,10 +1046,12 @@ pub fn registry() -> Vec<PropertyCheck> {
         PropertyCheck {
             id: "C09",
             level: "exploration",
-            rule: "seeded scenarios with socket faults at random call sites (transient, address-in-use, fatal kinds) on top of network faults; round count / error hand-off / Failed / Skipped semantics; non-trivial/distinct as for C01",
+            rule: "seeded scenarios with socket faults at random call sites (transient, address-in-use, fatal kinds) on top of network faults, plus the full enumeration of single scripted faults (configuration x site x phase x occurrence x errno; thorough tier also pairs) on a fault-free base run; round count / error hand-off / Failed / Skipped semantics; non-trivial/distinct as for C01",
             families: vec![
                 Family { name: "socket-faults", gen: g_sockfaults, oracle: oracle::c09, opts: opts_light(), quick_runs: 150_000, thorough_runs: 6_000_000, must_reach: &[], enum_dims: None },
                 Family { name: "swarm", gen: g_base, oracle: oracle::c09, opts: opts_light(), quick_runs: 50_000, thorough_runs: 2_000_000, must_reach: &[], enum_dims: None },
+                Family { name: "single-fault-enumeration", gen: fault_enum_single, oracle: oracle::c09, opts: opts_light(), quick_runs: 0, thorough_runs: 0, must_reach: &[], enum_dims: Some(fault_enum_single_dims) },
+                Family { name: "fault-pair-enumeration", gen: fault_enum_pair, oracle: oracle::c09, opts: opts_light(), quick_runs: 0, thorough_runs: 0, must_reach: &[], enum_dims: Some(fault_enum_pair_dims) },
             ],
             assumptions: vec![ASSUME_SIM, ASSUME_CLOCK, "the transient-error table (which errno at which call site marks a probe failed / re-issues it) is transcribed from the pinned commit and is part of the oracle"],
         },
@@ -807,6 +1063,7 @@ pub fn registry() -> Vec<PropertyCheck> {
                 Family { name: "swarm", gen: g_base, oracle: oracle::c10, opts: opts_full(), quick_runs: 120_000, thorough_runs: 5_000_000, must_reach: &[], enum_dims: None },
                 Family { name: "fault-free", gen: g_quiet, oracle: oracle::c10, opts: opts_full(), quick_runs: 40_000, thorough_runs: 1_500_000, must_reach: &[], enum_dims: None },
                 Family { name: "quiet-route-change", gen: g_quiet_change, oracle: oracle::c10, opts: opts_full(), quick_runs: 60_000, thorough_runs: 2_000_000, must_reach: &["fault.route_change"], enum_dims: None },
+                Family { name: "synthetic-rounds", gen: g_synth, oracle: oracle::c10, opts: opts_full(), quick_runs: 20_000, thorough_runs: 600_000, must_reach: &["reach.synthetic_round"], enum_dims: None },
             ],
             assumptions: vec![ASSUME_SIM, ASSUME_CLOCK],
         },
